@@ -52,6 +52,7 @@ impl Trace {
     fn yield_once(&self) -> YieldOnce {
         YieldOnce(!self.pending_once.load(Ordering::SeqCst))
     }
+    #[allow(dead_code)]
     pub fn in_prefix(&self, path: &str) -> bool {
         path.starts_with(self.prefix.lock().unwrap().as_str())
     }
